@@ -75,6 +75,14 @@ def _verif_audit(ev, args):
             if _os.path.dirname(path) == cache:
                 with open(_os.path.join(_os.environ["FAKECC_CTRL"], _os.environ.get("FAKECC_TAG", "x") + ".fsops"), "a") as f:
                     f.write(_json.dumps(dict(pid=_os.getpid(), op="open-for-write", path=path)) + "\n")
+        if ev == "os.mkdir" and _os.environ.get("FAKECC_PAUSE_MKDIR") and isinstance(args[0], (str, bytes)):
+            path = _os.path.abspath(_os.fsdecode(args[0]))
+            if path == _os.path.abspath(_os.environ.get("SAS_DLL_PATH", "/nonexistent")):
+                import time as _time
+                ctrl, tag = _os.environ["FAKECC_CTRL"], _os.environ.get("FAKECC_TAG", "x")
+                open(_os.path.join(ctrl, tag + ".at.mkdir"), "w").write(path)
+                while not _os.path.exists(_os.path.join(ctrl, tag + ".go.mkdir")):
+                    _time.sleep(0.003)
     except Exception:
         pass
 _sys.addaudithook(_verif_audit)
@@ -176,13 +184,18 @@ class Proc:
 
 
 class World:
-    def __init__(self, root, idx, fork=False):
+    def __init__(self, root, idx, fork=False, make_cache=True):
         self.fork = fork
+        self.pause_mkdir = not make_cache
         self.server = None
         self.dir = os.path.join(root, "w%d" % idx)
         self.cache = os.path.join(self.dir, "cache")
         self.ctrl = os.path.join(self.dir, "ctrl")
-        os.makedirs(self.cache); os.makedirs(self.ctrl)
+        os.makedirs(self.ctrl)
+        if make_cache:
+            os.makedirs(self.cache)
+        else:
+            os.makedirs(self.dir, exist_ok=True)      # the cache directory itself does not exist yet
         self.model_path = os.path.join(self.dir, "verif_c18.py")
         open(self.model_path, "w").write(MODEL)
         self.worker = os.path.join(self.dir, "worker.py")
@@ -196,7 +209,7 @@ class World:
         # every other world: the temporary directory (where the generated C file goes) on ANOTHER filesystem than
         # the cache - a rename between the two is then impossible and anything "moved" across is copied
         self.tmp = None
-        if idx % 2 == 1 and os.path.isdir("/dev/shm") and os.access("/dev/shm", os.W_OK) and os.stat("/dev/shm").st_dev != os.stat(self.cache).st_dev:
+        if idx % 2 == 1 and os.path.isdir("/dev/shm") and os.access("/dev/shm", os.W_OK) and os.stat("/dev/shm").st_dev != os.stat(self.dir).st_dev:
             self.tmp = "/dev/shm/verif_c18_%d_%d" % (os.getpid(), idx)
             shutil.rmtree(self.tmp, ignore_errors=True)
             os.makedirs(self.tmp)
@@ -226,6 +239,8 @@ class World:
                  PYTHONHASHSEED="0", SAS_OPENCL="none")
         if self.tmp:
             e["TMPDIR"] = self.tmp
+        if self.pause_mkdir and scripted:
+            e["FAKECC_PAUSE_MKDIR"] = "1"
         if scripted:
             e["CC"] = self.fakecc
         else:
@@ -565,6 +580,45 @@ def gen():
     return note
 
 
+def run_missing_dir(root, idx, nproc=2):
+    """Concurrent first use when the cache DIRECTORY does not exist yet: every builder is held just before it creates
+    the directory (audit event os.mkdir), then they are let go one after the other - so all but the first find the
+    directory already made by somebody else.  Every process must obtain correct values and a later load must succeed."""
+    w = World(root, idx, make_cache=False)
+    try:
+        procs = []
+        for k in range(nproc):
+            p = w.launch("d%d" % k)
+            procs.append(p)
+            t0 = time.time()
+            while not os.path.exists(os.path.join(w.ctrl, p.tag + ".at.mkdir")) and p.popen.poll() is None and time.time() - t0 < 90:
+                time.sleep(0.003)
+        held = [p.tag for p in procs if os.path.exists(os.path.join(w.ctrl, p.tag + ".at.mkdir"))]
+        for p in reversed(procs):          # the last to arrive creates the directory first
+            open(os.path.join(w.ctrl, p.tag + ".go.mkdir"), "w").write("go")
+            t0 = time.time()
+            while p.popen.poll() is None and not os.path.exists(os.path.join(w.ctrl, "%s.at.0" % p.tag)) and time.time() - t0 < 90:
+                time.sleep(0.003)
+        for p in procs:                    # then everybody runs to completion
+            for k in (0, 1, 2):
+                w.release(p, k)
+        for p in procs:
+            t0 = time.time()
+            while p.popen.poll() is None and time.time() - t0 < 120:
+                time.sleep(0.005)
+            w.collect(p)
+        r = w.launch("after", scripted=False)
+        t0 = time.time()
+        while r.popen.poll() is None and time.time() - t0 < 120:
+            time.sleep(0.005)
+        w.collect(r)
+        return dict(processes=nproc, held_before_mkdir=held, results={p.tag: p.result for p in procs}, after=r.result,
+                    listing=sorted(os.listdir(w.cache)) if os.path.isdir(w.cache) else None)
+    finally:
+        w.kill_all()
+        w.cleanup()
+
+
 def all_schedules(nproc, steps=4):
     base = []
     for p in range(1, nproc + 1):
@@ -649,8 +703,21 @@ def main(run):
                 mo["order"], sorted(bad) or "nobody", ("; later loads failing: %s" % sorted(badafter)) if badafter else ""), dict(mo)))
         else:
             distinct.add(("mixed", mo["order"]))
+    # concurrent first use with no cache directory yet
+    missing = []
+    for k_, n_ in enumerate([2, 3] if not thorough else [2, 2, 3, 4]):
+        missing.append(run_missing_dir(root, 2000 + k_, n_))
+    for md in missing:
+        badm = {t: r for t, r in md["results"].items() if not (r and r["ok"])}
+        if badm or not (md["after"] and md["after"]["ok"]):
+            run.add(Finding("C18:missing-cache-dir", "%d processes loading the model while the cache directory does not exist yet (each held just before creating it): %s did not obtain a working kernel (%s)%s" % (
+                md["processes"], sorted(badm) or "nobody", "; ".join("%s: %s" % (t, (r or {}).get("stderr", "")[-160:].replace("\n", " ")) for t, r in badm.items()),
+                "" if (md["after"] and md["after"]["ok"]) else "; a later load fails too"), dict(md)))
+        else:
+            distinct.add(("missing-dir", md["processes"]))
     stats = dict(schedules=len(obs), processes=sum(len(set(o["sched"])) for o in obs), kills=sum(len(o["killed"]) for o in obs),
-                 kill_stages={}, lookup_hits=0, mixed_precision_schedules=len(mixed))
+                 kill_stages={}, lookup_hits=0, mixed_precision_schedules=len(mixed), missing_cache_dir_worlds=len(missing),
+                 held_before_mkdir=sum(len(md["held_before_mkdir"]) for md in missing))
     for o in obs:
         distinct.add((tuple(o["sched"]), o["kill_kind"], o["forked_workers"]))
         stats["forked_worker_schedules"] = stats.get("forked_worker_schedules", 0) + int(o["forked_workers"])
